@@ -2,12 +2,16 @@
 
 use crate::run::Prop;
 
+pub mod c01;
 pub mod c03;
 pub mod c04;
+pub mod c05;
 
 pub fn make(id: &str, run: &mut crate::run::Run) -> Option<Box<dyn Prop>> {
 	match id {
+		"C01" => Some(Box::new(c01::C01::new(run))),
 		"C03" => Some(Box::new(c03::C03::new(run))),
+		"C05" => Some(Box::new(c05::C05::new(run))),
 		"C04" => Some(Box::new(c04::C04::new(run))),
 		_ => None,
 	}
@@ -18,7 +22,7 @@ pub fn make_for_replay(id: &str, run: &mut crate::run::Run) -> Option<Box<dyn Pr
 	make(id, run)
 }
 
-pub const ALL: &[&str] = &["C03", "C04"];
+pub const ALL: &[&str] = &["C01", "C03", "C04", "C05"];
 
 /// (runs, max steps per run) per tier
 pub fn budget(id: &str, thorough: bool) -> (u64, usize) {
@@ -39,6 +43,8 @@ pub fn rule(id: &str) -> String {
 	match id {
 		"C03" => "seeded histories (2-3 wallets, 1-3 accounts, 2-4 slates in flight, duplicated/re-ordered deliveries); a case is one step executed while >=2 slates are in flight on the acting wallet or a repeated protocol step; non-trivial when two in-flight slates pay from the same account or the step repeats an earlier successful one; distinct by (step kind, #in flight, repeated?, same account?, outcome)".into(),
 		"C04" => "seeded histories (mining, sends both ways, invoices, self-sends, accounts, restarts, node-call failures inside refresh); a case is one successful refresh of an untainted wallet/account; non-trivial when the account's output records changed since its previous judged refresh; distinct by (wallet, account, output-record digest)".into(),
+		"C01" => "seeded histories building varied output sets (coinbases of several maturities, change, locked/unconfirmed outputs, several accounts) followed by bursts of init_send_tx / process_invoice_tx with boundary-rich arguments (amount 0,1,balance+-1,2^32,2^40,u64::MAX-k; min confirmations 0..10; max_outputs 1..500; change outputs 0..7; both strategies; amount-includes-fee; late lock; estimate) under node-call failures and failing writes; a case is one such call with (arguments, outcome); non-trivial when selection produced >=1 input or the call hit a named boundary region (zero change outputs, near numeric limit, injected fault); distinct by argument shape x #inputs".into(),
+		"C05" => "seeded histories; a case is one cancel_tx whose wallet had a base snapshot (refreshed, chain frozen, touched only by the target transaction since) or one refused cancel on a fresh wallet; non-trivial when the rollback comparison ran or the refusal reason was confirmed/coinbase/already-cancelled/unknown; distinct by (entry kind, #transactions touched, #other pending) / refusal class".into(),
 		_ => "seeded histories".into(),
 	}
 }
